@@ -110,7 +110,12 @@ func (w *c08World) build(t *c08Term) types.Type {
 	case "struct":
 		fs := make([]*types.Var, len(t.Fields))
 		for i := range t.Fields {
-			fs[i] = types.NewField(token.NoPos, w.pkg, fmt.Sprintf("F%d", i), w.build(&t.Fields[i]), false)
+			// every second field is blank: names play no part in layout, and a blank field counts like any other
+			name := fmt.Sprintf("F%d", i)
+			if i%2 == 1 {
+				name = "_"
+			}
+			fs[i] = types.NewField(token.NoPos, w.pkg, name, w.build(&t.Fields[i]), false)
 		}
 		return types.NewStruct(fs, nil)
 	case "alias":
